@@ -9,7 +9,7 @@ import "context"
 // attempts and every Completion ran; WriteMessages afterwards fails with io.ErrClosedPipe.
 func VH_C07_AsyncOrder(n1, n2, batchSize int) {
 	vhConcreteClock(true)
-	tr := &vhTransport{partitions: 1}
+	tr := &vhTransport{partitions: 1, budget: 4}
 	comp := &vhCompletion{}
 	w := &Writer{Addr: TCP("vh:9092"), Topic: "t", MaxAttempts: 2, BatchSize: batchSize, Transport: tr, Completion: comp.fn, RequiredAcks: RequireAll, Async: true}
 	id := 1
